@@ -9,6 +9,42 @@ NOTE = ("Trusted: Lean 4.33 kernel (axioms propext, Classical.choice, Quot.sound
         "differential correspondence streams named here (agreement on generated inputs, not a proof of the tie). ")
 
 CLAIMS = {
+ 'C03': dict(
+   text="Lean theorems: for all 21x21 written-note pairs and both search orders the interval search returns exactly the degree whose number is the "
+        "letter distance and whose textbook size is the pitch distance BY LETTER (so reference + degree is the written note), fails only when no "
+        "quality has that size (or only a diminished 2nd/3rd/6th/7th, an observed gap), search order irrelevant (kernel decide over 882 cases); lifted by "
+        "a general proof (conv_sound) to the converter for ARBITRARY root/bass tokens in every supported key; the key's own seven notes are accepted as "
+        "roots with the scale's own degrees and as basses over one another (decide over 28 keys x 7 x 7). Tie: exhaustive 21x21x2 GetDegree in-process, "
+        "`crd text conv syllable --key K` through the real binary (quick: 1,200 sampled single chords + 1,500 generated texts; thorough: all 12,936 chords).",
+   note="The YAML printed by the binary is re-read by the harness as raw scalars (no crd types) and compared with the model's printed degrees.",
+   technique="Lean 4 proof: kernel decide over the finite note product + general lifting lemma; differential tie through the CLI", ref="6 (C03)"),
+ 'C13': dict(
+   text="Lean theorems decided by kernel evaluation of the model's NewScale over ALL 64 values of the Key type against a line-of-fifths specification "
+        "(not crd's table): the 15+13 named keys are supported and nothing else is; letters once from the tonic; step pattern 2212221/2122122; "
+        "signature = conventional signature, never both sharps and flats; altered notes = first n of FCGDAEB / BEADGCF; relative pairs share notes and "
+        "signature. Tables (keyStringSignatures, flatSequence, ring) are re-extracted from op/scale.go on every run. Tie: ParseKey/NewScale/diatonic "
+        "chords for all 42 spellings + malformed strings in-process.",
+   note="ParseKey is modelled as 'first match of ([A-G])([#b]?)(m?) anywhere' (Go regexp leftmost-first); the regexp engine itself is trusted.",
+   technique="Lean 4 proof: decide over the whole finite key space lifted to forall k : Key; regenerated tables", ref="6 (C13)"),
+ 'C14': dict(
+   text="Lean theorems: rings aligned (12 non-empty slots each, every supported key in exactly its slot, all slot members supported), each move from every "
+        "supported key means what theory says (dominant +7 semitones same mode, subdominant +5, relative: other mode and signature equal up to 12 "
+        "fifths, parallel: other mode same tonic pitch class) and lists every supported spelling; by INDUCTION over the chain, for chains of any length "
+        "and ANY iteration order of the member set: every chain succeeds and equals the composition of abstract steps in Bool x Z/12 "
+        "(chain_is_composition), independence of the spelling read (spelling_independent), and the laws d.s = s.d = r.r = p.p = d^12 = id as chain "
+        "suffix laws. Tie: KeyConversionChain.Convert in-process for 28 keys x all chains up to length 4 (thorough 6: 152,880) + random chains to length 200.",
+   note="Go's map iteration order is modelled as an arbitrary selection function on the member set (OrdOK); the scheduler is not involved.",
+   technique="Lean 4 proof: decide on regenerated ring seeds + induction over chains with an order oracle", ref="6 (C14)"),
+ 'C16': dict(
+   text="Lean theorems over the embedded chord.yml/attribute.yml (re-read every run): each of the 23 listed symbols resolves (inherited notes included) to "
+        "its conventional interval set; name and display resolve to the same entry and notes; attribute names = English quality + number of a valid "
+        "interval; embedded list = GenerateAttributes(N) with N from the go:generate line. For ARBITRARY user lists appended after the built-ins: "
+        "acceptance iff every user entry is well formed and the combined map validates; unnamed entries, dangling attributes/parents and entries on an "
+        "extends cycle are rejected (cycle_never_ends by induction); in every accepted dictionary GetChordAttributes = parent's notes (transitively) ++ own "
+        "and never exhausts its fuel (= no unbounded recursion). Tie: 600 (8,000) random user dictionaries incl. each inconsistency kind through "
+        "`crd write --attr/--chord`, byte comparison of the MIDI output.",
+   note="Go maps are modelled as association lists with last-binding-wins; validation errors are compared as a class, not by text.",
+   technique="Lean 4 proof: decide on regenerated YAML + fuel/cycle induction for arbitrary dictionaries", ref="6 (C16)"),
  'C15': dict(
    text="Lean theorems for ALL interval numbers n and all qualities: crd's size function = textbook size (size_is_textbook), impossible "
         "combinations rejected / possible accepted, print-parse round trip for every valid interval < 2^64, parse yields only valid "
